@@ -344,17 +344,23 @@ func runC13(c *Ctx) {
 			res, _ := shutdownWithin(srv, 0, 2*time.Second)
 			c.Pred("lifecycle", "failed-start-then-shutdown", "bad network", e != nil && res != "nil" && res != "blocked", fmt.Sprint(e, " / ", res), "errors", true)
 		}
-		// --- S5: context expiry with a stuck handler
-		{
+		// --- S5: context expiry with a stuck handler: ShutdownContext returns with the context's error, and the socket is
+		//         closed all the same (its address can be bound again)
+		for _, kind := range []string{"udp", "pc"} {
 			p := &srvProbe{hold: make(chan struct{})}
-			ls, err := startServer("udp", p)
+			ls, err := startServer(kind, p)
 			if err == nil {
 				go query(ls.net, ls.addr, 7, 2*time.Second)
 				for t := 0; t < 300 && atomic.LoadInt64(&p.enter) < 1; t++ {
 					time.Sleep(time.Millisecond)
 				}
 				res, _ := shutdownWithin(ls.srv, 60*time.Millisecond, 3*time.Second)
-				c.Pred("lifecycle", "context-expiry-returns", "stuck handler", res == "ctx", res, "ctx", true)
+				c.Pred("lifecycle", "context-expiry-returns", "stuck handler, "+kind, res == "ctx", res, "ctx", true)
+				again, e2 := net.ListenPacket("udp", ls.addr)
+				if e2 == nil {
+					again.Close()
+				}
+				c.Pred("lifecycle", "socket-closed-after-context-expiry", "stuck handler, "+kind, e2 == nil, fmt.Sprint(e2), "the address can be bound again", true)
 				close(p.hold)
 				<-ls.serveCh
 			}
@@ -375,6 +381,8 @@ func runC13(c *Ctx) {
 	}
 	_ = base
 	c.Pred("leaks", "no-server-goroutine-left", fmt.Sprintf("%d rounds", rounds), left == 0, fmt.Sprint(left, " goroutines still inside dns.(*Server)"), "0", true)
+	// TLS-style listener with pipelined queries
+	c13TLSPipelined(c, c.R)
 }
 
 // c13Forced: a PacketConn whose SetReadDeadline parks the reader at the refresh point; Shutdown is started
